@@ -729,7 +729,26 @@ pub fn cmd_spec(args: &[String]) {
             let f = if class_mode && r.chance(2, 5) { *r.pick(&["v", "iv", "iv"]) } else { *r.pick(&flagsets) };
             let depth = if r.chance(1, 5) { 3 } else { 1 + r.below(2) as u32 };
             let mut g = G { r: &mut r, unicode: f.contains('u'), vmode: f.contains('v'), ngroups_seen: 0, names_seen: vec![] };
-            if class_mode && g.r.chance(1, 9) {
+            if class_mode && g.r.chance(1, 12) {
+                // an alternation of two to five terms of zero to three single-character atoms: the balanced Alt tree over
+                // terms built by make_cat is compared with the models (J line)
+                const ALT_ATOMS: &[u32] = &[0x61, 0x41, 0x6B, 0x4B, 0x212A, 0x73, 0x17F, 0xE9, 0x31];
+                let na = 2 + g.r.below(4);
+                let mut alts = vec![];
+                for _ in 0..na {
+                    let k = g.r.below(4);
+                    let mut v = vec![];
+                    for _ in 0..k {
+                        v.push(match g.r.below(6) {
+                            0 => Ast::Any,
+                            1 if g.vmode => { let e = g.ve(1, false); Ast::VClass(e) }
+                            _ => Ast::Char(*g.r.pick(ALT_ATOMS)),
+                        });
+                    }
+                    alts.push(if v.len() == 1 { v.pop().unwrap() } else { Ast::Seq(v) });
+                }
+                (Ast::Alt(alts), f)
+            } else if class_mode && g.r.chance(1, 9) {
                 // a concatenation of two to four single-character atoms (literal characters, the dot, under v also class
                 // expressions): the flat Cat the parser builds is compared atom by atom with the models (J line)
                 const SEQ_ATOMS: &[u32] = &[0x61, 0x41, 0x6B, 0x4B, 0x212A, 0x73, 0x17F, 0xDF, 0xE9, 0x3C3, 0x3C2, 0x31, 0x1F600];
@@ -774,6 +793,10 @@ pub fn cmd_spec(args: &[String]) {
             let mut ps: Vec<String> = ["\0", "a", "A", "b", "k", "K", "\u{212A}", "s", "S", "\u{17F}", "é", "É", "ß", "\u{7f}", "\u{80}", "_", "0", " ", "\n", "", "ab", "\u{10FFFF}", "\u{FFFF}",
                                        "B", "c", "C", "f", "F", "g", "G", "j", "1", "\u{3c3}", "\u{3c2}", "\u{3a3}", "\u{1c5}", "AB", "aB", "-", "&"]
                 .iter().map(|t| t.to_string()).collect();
+            if let Ast::Alt(_) = &ast {
+                let al = ["a", "A", "k", "K", "\u{212A}", "s", "\u{17F}", "\u{e9}", "1", "\n"];
+                for x in al { for y in al { ps.push(format!("{}{}", x, y)); for z in ["a", "K"] { ps.push(format!("{}{}{}", x, y, z)); } } }
+            }
             if let Ast::Seq(v) = &ast {
                 if let Ast::VClass(e) = &v[1] { ve_probes(e, &mut ps); }
                 if v.len() > 3 {
@@ -839,6 +862,13 @@ pub fn cmd_spec(args: &[String]) {
         writeln!(w, "A {}", toks).unwrap();
         // class mode, v-mode class expression: the IR the parser builds, for the model of the class set evaluation
         if class_mode {
+            if let Ast::Alt(_) = &ast {
+                if let Ok(ire) = regress::backends::try_parse(pat.chars().map(|c| c as u32), regress::Flags::from(f)) {
+                    let mut t = String::new();
+                    crate::dump::node_tokens(&ire.node, &mut t);
+                    writeln!(w, "J {}", t).unwrap();
+                }
+            }
             if let Ast::Seq(v) = &ast {
                 let atoms_only = v.len() >= 3 && v[1..v.len() - 1].iter().all(|a| matches!(a, Ast::VClass(_) | Ast::Char(_) | Ast::Any));
                 if atoms_only {
